@@ -18,7 +18,8 @@ Definition qeq (f : bytes) (v : jv) : query := mkq [[mkc f OpEQ v]] [] 0.
 Definition by_id (id : bytes) : query := qeq idn (JStr (hex_encode id)).
 
 (* ---- INTEGER fields: the column holds int64(number), the payload the number ---- *)
-Definition sch_int : schema := new_schema true idn [(fN, TInt)] [].
+Definition fl_now : flags := mkfl true false true.   (* the code as it is *)
+Definition sch_int : schema := new_schema fl_now idn [(fN, TInt)] [].
 Definition ops_int : list op := [OInsert [([1], obj1 fN (JNum half))]].
 
 Lemma search_refuted :
@@ -45,7 +46,7 @@ Lemma search_refuted_late_field :
 Proof. intros st H. vm_compute in H. discriminate. Qed.
 
 (* ---- DOUBLE keys: -0.0 and +0.0 are one value with two keys ---- *)
-Definition sch_dbl : schema := new_schema true idn [(fD, TDbl)] [].
+Definition sch_dbl : schema := new_schema fl_now idn [(fD, TDbl)] [].
 Definition ops_dbl : list op :=
   [OInsert [([1], obj1 fD (JNum nzero))]; OInsert [([2], obj1 fD (JNum pzero))]].
 
@@ -58,7 +59,7 @@ Proof.
 Qed.
 
 (* ---- unique index: the first key under the value is a tombstone ---- *)
-Definition sch_uniq : schema := new_schema true idn [(fN, TInt)] [mkix [fN] true].
+Definition sch_uniq : schema := new_schema fl_now idn [(fN, TInt)] [mkix [fN] true].
 Definition ops_uniq : list op :=
   [OInsert [([1], obj1 fN (jint 20))]; ODelete (by_id [1]);
    OInsert [([2], obj1 fN (jint 20))]; OInsert [([3], obj1 fN (jint 20))]].
